@@ -211,6 +211,10 @@ func (s *RefServer) feed(p []byte) {
 		}
 		line := string(s.lineBuf[:i])
 		s.lineBuf = append([]byte(nil), s.lineBuf[i+2:]...)
+		if s.out.Len() > 0 && !s.tlsActive {
+			// the client speaks although it has not read all of the previous reply
+			s.Events = append(s.Events, Event{Kind: "unread", Line: line, Data: append([]byte(nil), s.out.Bytes()...), Pos: s.pos})
+		}
 		s.Events = append(s.Events, Event{Kind: "cmd", Line: line, Pos: s.pos})
 		s.curLine = line
 		if s.inAuth {
@@ -336,6 +340,11 @@ func (c *ScriptConn) Read(p []byte) (int, error) {
 	}
 	defer c.srv.mu.Unlock()
 	if c.srv.out.Len() > 0 {
+		// one line per read, as a network may deliver them: what a reader leaves unread of a reply stays
+		// visible to the server (see feed: "unread")
+		if i := bytes.IndexByte(c.srv.out.Bytes(), '\n'); i >= 0 && i+1 < len(p) {
+			p = p[:i+1]
+		}
 		return c.srv.out.Read(p)
 	}
 	if c.srv.closed {
